@@ -350,7 +350,7 @@ func c07Run(sc *C07Scenario) (v *nodeViolation, flags map[string]bool) {
 	}
 	for process() {
 	}
-	// bounded liveness: whatever is eligible must be reported safe within 20 checker ticks
+	// bounded liveness: whatever is eligible must be reported safe within a bounded number of checker ticks
 	// liveness is only demanded for transactions that overlap with nothing the node ever saw
 	// (a spend of an outpoint also spent by a confirmed or late-arriving tx may rightly stay unsafe)
 	overlap := func(i int) bool {
@@ -393,7 +393,10 @@ func c07Run(sc *C07Scenario) (v *nodeViolation, flags map[string]bool) {
 		// make every eligible tx old enough, then give the checker its ticks
 		sn.passTime(delay + time.Second)
 		shift += delay + time.Second
-		deadline := time.Now().Add(2500 * time.Millisecond)
+		// 20 checker ticks on a quiet machine; on a loaded one the ticks come late, so the wait goes on
+		// for up to 12 s before a missing report is believed (a report that is owed but never comes
+		// stays missing however long one waits)
+		deadline := time.Now().Add(12 * time.Second)
 		for time.Now().Before(deadline) {
 			all := true
 			for i := range txs {
@@ -495,7 +498,7 @@ func c07Run(sc *C07Scenario) (v *nodeViolation, flags map[string]bool) {
 				}
 			}
 			if !ok {
-				return &nodeViolation{"C07/safe-never-reported", fmt.Sprintf("tx%d is vouched for by the trusted peer, has no known conflict, is older than the safe delay and the node stayed in sync, but no safe report arrived within 20 checker ticks", i)}, flags
+				return &nodeViolation{"C07/safe-never-reported", fmt.Sprintf("tx%d is vouched for by the trusted peer, has no known conflict, is older than the safe delay and the node stayed in sync, but no safe report arrived within 12 s (more than 100 checker ticks)", i)}, flags
 			}
 			flags["safe-reported"] = true
 		}
@@ -579,7 +582,7 @@ func genC07(t *rapid.T) *C07Scenario {
 	return sc
 }
 
-const c07Rule = "semi-live histories (harness steps everything, the real checkTxDelays goroutine ticks every 100 ms; safe delay 200/1000/5000 ms; logical time = real time + shifts through the hook): untrusted body / trusted inv / trusted body / local submit, conflicts before, between and after the delay expiry, confirmations, clean restarts, and race windows in which the checker goroutine is held at a generated one of its storage operations while generated transaction/block events run; oracle: flag invariants on every notification, safe only if vouched and no known conflict, at most one newly-safe report, and bounded liveness (safe report within 20 ticks once eligible); non-trivial = a vouch and either a conflict, a delay crossing or a liveness wait; distinct by scenario hash"
+const c07Rule = "semi-live histories (harness steps everything, the real checkTxDelays goroutine ticks every 100 ms; safe delay 200/1000/5000 ms; logical time = real time + shifts through the hook): untrusted body / trusted inv / trusted body / local submit, conflicts before, between and after the delay expiry, confirmations, clean restarts, and race windows in which the checker goroutine is held at a generated one of its storage operations while generated transaction/block events run; oracle: flag invariants on every notification, safe only if vouched and no known conflict, at most one newly-safe report, and bounded liveness (safe report within 12 s, i.e. more than 100 checker ticks, once eligible); non-trivial = a vouch and either a conflict, a delay crossing or a liveness wait; distinct by scenario hash"
 
 func TestC07Safe(t *testing.T) {
 	rep := verifkit.NewReport("C07", "TestC07Safe", c07Rule)
